@@ -147,7 +147,7 @@ def pair_job(job):
         try:
             eb = M.enc(b, v)
             structural = None
-        except (AssertionError, IndexError, TypeError, ValueError) as e:
+        except (AssertionError, IndexError, TypeError, ValueError, AttributeError, KeyError, z3.Z3Exception) as e:
             eb, structural = None, "the value of A cannot be read at B by position (%s)" % type(e).__name__
         model = None
         if structural is None:
